@@ -434,6 +434,7 @@ int main(int argc, char** argv) {
       FILE* f = fopen(path, "wb"); fwrite(t, 1, n, f); fclose(f); free(t);
       int rc; API(rc = yr_compiler_load_atom_quality_table(C[i], path, (unsigned char) AI(3))); unlink(path); reply_rc(rc);
     }
+    else if ((!strcmp(c, "defc") && !C[AI(1)]) || (!strcmp(c, "defr") && !R[AI(1)]) || (!strcmp(c, "defs") && !S[AI(1)])) reply_rc(-2);
     else if (!strcmp(c, "defc")) reply_rc(define_var(0, AI(1), A(2), A(3), A(4)));
     else if (!strcmp(c, "defr")) reply_rc(define_var(1, AI(1), A(2), A(3), A(4)));
     else if (!strcmp(c, "defs")) reply_rc(define_var(2, AI(1), A(2), A(3), A(4)));
